@@ -7,6 +7,17 @@ From Coq Require Import Uint63 PrimFloat.
 Require Import MV.Lib.Base MV.Lib.FloatLit.
 Import ListNotations.
 
+(* ---- the stage methods of a frame field and the state FrameField.run() reads and writes:
+   (initialized flag, smoothed flag, stages executed so far) *)
+Inductive stage := SInit | SOpt.
+Definition ffstate := (bool * bool * list stage)%type.
+Definition st_i (st : ffstate) : bool := fst (fst st).
+Definition st_s (st : ffstate) : bool := snd (fst st).
+Definition st_stages (st : ffstate) : list stage := snd st.
+Definition st_push (x : stage) (st : ffstate) : ffstate := (st_i st, st_s st, st_stages st ++ [x]).
+Definition st_seti (b : bool) (st : ffstate) : ffstate := (b, st_s st, st_stages st).
+Definition st_sets (b : bool) (st : ffstate) : ffstate := (st_i st, b, st_stages st).
+
 Record ops (T : Type) := mkops {
   o0 : T; o1 : T;
   oadd : T -> T -> T; osub : T -> T -> T; omul : T -> T -> T; odiv : T -> T -> T;
